@@ -1,5 +1,5 @@
 """C04 — encoder results do not depend on chunking or on UTF-8 vs UTF-16 input form (structural clauses)."""
-import t_dst, r_account, r_iso, r_lookahead, r_surr, r_inputempty, r_dim, r_utf8asm
+import t_dst, r_account, r_iso, r_lookahead, r_surr, r_inputempty, r_dim, r_utf8asm, r_asciicopy
 import p_c09
 
 MANIFEST = {
@@ -35,6 +35,7 @@ def run(rep, facts, tier):
         n = r_inputempty.run(rep, f, c, 'R-INPUTEMPTY', lambda nm: 'Encoder::' in nm or nm.startswith(('handles::Utf16Source', 'handles::Utf8Source')))
         rep.floor('R-INPUTEMPTY', 'InputEmpty constructions (encoders)', n, 25, c)
         r_utf8asm.run(rep, f, c, scope='handles::', floor=15)
+        r_asciicopy.run(rep, f, c, want=lambda n: 'copy_ascii_to_' in n)
         for w in p_c09.WRAPPERS:
             if w[4]:
                 p_c09.wrapper(rep, f, c, *w)
